@@ -123,7 +123,9 @@ func Build(thorough bool) *World {
 	tN := labnet.Tx([]labnet.Out{P.U[1]}, []*types.TxOutput{btm(chainlab.UAmount-labnet.Fee, w.KA.Prog)})
 	a1 := cw.AddBlock(0, "a1", labnet.BlockOpt{Txs: []*types.Tx{tV, tN}})
 	tS := Spend(w.KA, []labnet.Out{{Tx: tN, Idx: 0}}, []*types.TxOutput{btm(chainlab.UAmount-2*labnet.Fee, w.KB.Prog)})
-	w.a2 = cw.AddBlock(a1, "a2", labnet.BlockOpt{Txs: []*types.Tx{tS}})
+	// a chained spend inside one block: tS2 spends the wallet-owned output tS has just created
+	tS2 := Spend(w.KB, []labnet.Out{{Tx: tS, Idx: 0}}, []*types.TxOutput{btm(chainlab.UAmount-3*labnet.Fee, w.KA.Prog)})
+	w.a2 = cw.AddBlock(a1, "a2", labnet.BlockOpt{Txs: []*types.Tx{tS, tS2}})
 	tVeto := Spend(w.KA, []labnet.Out{{Tx: tV, Idx: 0}}, []*types.TxOutput{btm(100000000-labnet.Fee, w.KA.Prog)})
 	a3 := cw.AddBlock(w.a2, "a3", labnet.BlockOpt{Txs: []*types.Tx{tVeto}})
 	a4 := cw.AddBlock(a3, "a4", labnet.BlockOpt{})
